@@ -93,9 +93,21 @@ def oracle_literal(it, bs):
 
 
 def harness(it, px, params):
-    fam = ['literal', 'exponent', 'arith', 'zeros'][pick_config(px, 'fam', 4)]
+    fam = ['literal', 'exponent', 'arith', 'zeros', 'long'][pick_config(px, 'fam', 5)]
     px.notes.append(fam)
     rec = {'family': fam}
+    if fam == 'long':
+        # long literals: every byte a symbolic digit, optionally one '.' at a symbolic place (64-bit and 96-bit boundaries)
+        L = params['LONG'][pick_config(px, 'llen', len(params['LONG']))]
+        bs = [px.bv('b%d' % i, 8) for i in range(L)]
+        dot = px.bv('dotpos', 8)
+        for i, b in enumerate(bs):
+            isd = z3.And(z3.UGE(b, z3.BitVecVal(0x30, 8)), z3.ULE(b, z3.BitVecVal(0x39, 8)))
+            px.add(z3.If(dot == i, b == 0x2E, isd) if 0 < i < L - 1 else isd)
+        px.add(dot != 0)
+        px.get_model()
+        px.cover('long-literal')
+        return literal_case(it, px, rec, bs)
     if fam == 'literal':
         L = 1 + pick_config(px, 'len', params['LIT'])
         bs = [px.bv('b%d' % i, 8) for i in range(L)]
@@ -205,6 +217,16 @@ def literal_case(it, px, rec, bs, exponent=False):
         if got.kind != 'err':
             px.finding(finding('literal|accepted-invalid', 'a text that is not a decimal literal is not rejected (%s)' % got.kind, rec['witness']))
         return rec
+    MAX96 = (1 << 96) - 1
+    if orc[2] > 28:
+        rec['value_unchecked'] = 'more than 28 fraction digits (rounded by rust_decimal)'
+        return rec
+    fits = (orc[1] <= MAX96) if not is_sym(orc[1]) else it.truth(re_.I(orc[1]) <= MAX96)
+    if not fits:
+        # not representable in 96 bits: an integer literal must be rejected; with a fraction part rust_decimal rounds (outside)
+        if orc[2] == 0 and got.kind == 'ok':
+            px.finding(finding('literal|accepted-unrepresentable', 'an integer literal above 2^96-1 evaluates to a value', rec['witness']))
+        return rec
     if got.kind != 'ok' or got.value.name != 'Number':
         px.finding(finding('literal|rejected-valid', 'a valid decimal literal does not evaluate to a number (%s %s)' % (got.kind, got.detail or ''), rec['witness']))
         return rec
@@ -247,6 +269,7 @@ def native_wrong(o, want):
 
 def run(ctx):
     params = {'LIT': 5 if ctx.tier == 'quick' else 7, 'SCALES': [0, 1, 2] if ctx.tier == 'quick' else [0, 1, 2, 3, 4],
+              'LONG': (17, 18, 19, 20, 28, 29) if ctx.tier == 'quick' else tuple(range(8, 32)),
               'seed': ctx.seed, 'timeout_ms': 10000 if ctx.tier == 'quick' else 60000, 'step_limit': 400000}
     eng = ctx.engine('dev')
     recs, summ = ex.explore(eng, harness, params, prepare=prepare)
@@ -265,7 +288,7 @@ def run(ctx):
     covers = set()
     for r in recs:
         covers.update(r.get('covers', []))
-    for need in ['literal-valid', 'literal-invalid', 'zeros'] + ['arith-' + o for o in OPS]:
+    for need in ['literal-valid', 'literal-invalid', 'zeros', 'long-literal'] + ['arith-' + o for o in OPS]:
         if need not in covers and not float_reached:
             inconclusive.append('vacuity: cover %s not reached' % need)
     groups = {}
@@ -344,7 +367,8 @@ def run(ctx):
             'states': max(1, summ['paths']), 'transitions': max(1, summ['decisions']),
             'traces_validated_against_impl': validated, 'samples': samples[:40], 'exhaustive': not summ.get('truncated') and not inconclusive,
             'bound': {'literal_bytes_max': params['LIT'], 'literal_alphabet': '0-9 . e E (+ exponent-sign forms)', 'arith_digits': '1-2 integer digits, scale from %s, all digits symbolic' % params['SCALES'],
-                      'operators': OPS, 'compound_assignment_forms': ['+=', '-=', '*=', '%=']},
+                      'operators': OPS, 'compound_assignment_forms': ['+=', '-=', '*=', '%='],
+                      'long_literal_lengths': list(params['LONG']), 'long_literal_shape': 'every byte a symbolic digit, optionally one `.` at a symbolic place'},
             'path_status': by_status, 'outside_model': by_status.get('outside', 0),
             'solver': {'engine': 'z3 ' + z3.get_version_string(), 'queries_sat': summ['sat'], 'queries_unsat': summ['unsat'],
                        'queries_unknown': summ['unknown'], 'solver_s': round(summ['solver_s'], 2)},
